@@ -525,10 +525,10 @@ func TestC14_HashProofs(t *testing.T) {
 	ev := evFor("C14")
 	ev.Rule(c14Rule)
 	ev.Assume("trailing bytes after a complete proof are not a mutation of the proof (HashVerify reads only what the predicate needs); bases are non-identity points")
-	rcheck(t, 900, 25000, func(t *rapid.T) { c14Hash(t, ev) })
+	rcheck(t, 900, 200000, func(t *rapid.T) { c14Hash(t, ev) })
 }
 
 func TestC14_Deniable(t *testing.T) {
 	ev := evFor("C14")
-	rcheck(t, 120, 3000, func(t *rapid.T) { c14Deniable(t, ev) })
+	rcheck(t, 120, 24000, func(t *rapid.T) { c14Deniable(t, ev) })
 }
